@@ -7,6 +7,7 @@ hubprops.PLAN["C18"] = [
     # the manager started with send_msg_timing=False: no TIMING_MESSAGE, MESSAGE_TRAFFIC exactly as before
     {"fam": "StatsNoTiming", "num_q": 15, "num_t": 150, "depth": 120, "prof_q": 1, "prof_t": 2, "timing": False},
     {"fam": "stats-matrix-notiming", "scen": scenarios.stats_matrix, "num_q": 0, "num_t": 0, "prof_q": 1, "prof_t": 1, "timing": False},
+    {"fam": "refused-duplicate-then-timing", "scen": scenarios.refused_duplicate_then_timing, "num_q": 0, "num_t": 0, "prof_q": 2, "prof_t": 3},
 ]
 
 
